@@ -50,6 +50,9 @@ func CheckTokenGame(pfx string, prog *Program, hist []simlog.Ev) *TokenGameResul
 	var vl vlist
 	g := prog.Defs.Procs[0]
 	m := NewModel(g, prog.Vars)
+	for k, v := range prog.Objs {
+		m.objs[k] = v
+	}
 	res := &TokenGameResult{M: m, Requests: map[string]int{}}
 	started := false
 	visitsEnd := map[string]int{}
@@ -191,6 +194,18 @@ func CheckTokenGame(pfx string, prog *Program, hist []simlog.Ev) *TokenGameResul
 		for _, k := range names {
 			a, aok := finalVars[k]
 			b, bok := mv[k]
+			if aok && bok && strings.HasPrefix(k, "r_") && res.Requests[k[2:]] > 1 {
+				// several tokens passed this activity, possibly concurrently: the engine may apply their
+				// answers in either order, so only the activity part of the value is compared
+				sa, sb := fmt.Sprint(a), fmt.Sprint(b)
+				if i := strings.Index(sa, "#"); i >= 0 {
+					sa = sa[:i]
+				}
+				if i := strings.Index(sb, "#"); i >= 0 {
+					sb = sb[:i]
+				}
+				a, b = sa, sb
+			}
 			if aok != bok || canon(a) != canon(b) {
 				vl.add(pfx+"/variables", "variable %s: engine has %v (present=%v), token game has %v (present=%v)", k, a, aok, b, bok)
 			}
